@@ -98,6 +98,12 @@ CLAIMED = {
         "Seam RT via cargo feature verif_hooks (thin re-exports of the private functions; named in the property's hook_needed). The browser glue (effects, navigate, popstate) needs web_sys and is modelled by the driver; generate_routes/match_nested on real route objects are not yet driven (segment tables are built by hand in the shape generate_routes produces).",
         "DESIGN.md §3 C14",
     ),
+    "C20": (
+        "exhaustive enumeration of (formatter/plural family, placement) singles and pairs on the real build helper against a used-family predicate computed from the AST",
+        "Each of 7 families at each of 9 placements (default locale, non-default only, nested subkeys, range branch, plural form, only as a foreign-key target, second namespace, unreachable surplus key, none), namespaced or not, over 4 locale sets, plus pairs of placements: the characteristic ICU data key of a family must be requested iff a reachable key uses the family in some locale; reported locales, language identifiers, namespaces and file list must be exactly the configured ones.",
+        "Seam: leptos_i18n_build::TranslationsInfos linked natively (parser built with `quote` as in a user's host build). The provider generation itself (DatagenProvider::new_latest_tested) needs a CLDR download and is not run: the request is what is checked.",
+        "DESIGN.md §3 C20",
+    ),
 }
 
 NOT_YET = "check not built yet in this round (design in DESIGN.md §3); no claim is made"
